@@ -13,6 +13,9 @@ def discrete_grid_pos_to_id(x: int, y: int = 0, width: int = 0, z: int = 0, heig
     Uniqueness is dimension dependent. The equation for calculating uniqueness is defined as:
      ``(z * width * height) + (y * width) + x``
 
+    A ``width`` or ``height`` of zero denotes an axis with a single layer (as in a ``DiscreteWorld``) and is counted
+    as ``1``.
+
     Parameters
     ----------
     x : int
@@ -31,6 +34,7 @@ def discrete_grid_pos_to_id(x: int, y: int = 0, width: int = 0, z: int = 0, heig
     int
         The unique ID.
     """
+    width, height = max(width, 1), max(height, 1)  # A zero extent is a single layer
     return (z * width * height) + (y * width) + x
 
 
